@@ -128,7 +128,7 @@ def sc_wrapper(d, n, nops, partial, ignore_partial, unique, weights, overrides=T
     d.witness(True, "ran")
 
 
-def sc_speedup(d, n, fit_idx, pred_idx, weights):
+def sc_speedup(d, n, fit_idx, pred_idx, weights, nn=None, prior=0.0):
     from skactiveml.pool.utils import IndexClassifierWrapper
     from skactiveml.classifier import ParzenWindowClassifier
     xs = [d.fl(f"x{i}", lo=-2.0, hi=2.0) for i in range(n)]
@@ -138,7 +138,8 @@ def sc_speedup(d, n, fit_idx, pred_idx, weights):
     sw = d.arr([d.fl(f"w{i}", lo=0.0) for i in range(n)]) if weights else None
     outs = []
     for speed in (False, True):
-        clf = ParzenWindowClassifier(classes=[0.0, 1.0], metric="rbf", metric_dict={"gamma": 0.5})
+        clf = ParzenWindowClassifier(classes=[0.0, 1.0], metric="rbf", metric_dict={"gamma": 0.5}, n_neighbors=nn,
+                                     class_prior=prior)
         w = IndexClassifierWrapper(clf, X, y, sample_weight=sw, use_speed_up=speed)
         w.precompute(d.arr(fit_idx, dtype=int), d.arr(pred_idx, dtype=int))
         w.fit(d.arr(fit_idx, dtype=int))
@@ -174,8 +175,12 @@ def _cfg_speed(tier):
     for fit_idx, pred_idx in (([0, 1], [2]), ([0, 1, 2], [0, 2]), ([1], [0, 1, 2])):
         for weights in (False, True):
             out.append(dict(n=3, fit_idx=fit_idx, pred_idx=pred_idx, weights=weights))
+    # every constructor parameter of the wrapped classifier must survive the speed-up (nearest neighbours, prior)
+    out.append(dict(n=3, fit_idx=[0, 1, 2], pred_idx=[0, 2], weights=False, nn=1, prior=0.0))
+    out.append(dict(n=3, fit_idx=[0, 1, 2], pred_idx=[1], weights=True, nn=2, prior=0.5))
     if tier == "thorough":
         out.append(dict(n=4, fit_idx=[0, 1, 3], pred_idx=[2, 3], weights=True))
+        out.append(dict(n=4, fit_idx=[0, 1, 2, 3], pred_idx=[2, 3], weights=True, nn=2, prior=1.0))
     return out
 
 
